@@ -105,7 +105,7 @@ func vPerturbPath(p Path, t float64, w, s int) Path {
 
 // (2) accept: every coordinate perturbed by less than the tolerance
 func VH_C15_accept_linestring() {
-	w, s := vBound(5, 6), 1
+	w, s := vBound(6, 7), 2
 	t := vTol(3, s)
 	g := LineString(vGridPath(0, vBound(3, 4), w, s))
 	h := LineString(vPerturbPath(Path(g), t, w, s))
@@ -117,8 +117,8 @@ func VH_C15_accept_linestring() {
 // members reordered by an arbitrary permutation; distinct members start at
 // vertices separated by much more than the tolerance
 func VH_C15_accept_multilinestring_permuted() {
-	w, s := vBound(5, 6), 1
-	t := vTol(2, s)
+	w, s := vBound(6, 7), 2
+	t := vTol(3, s)
 	n := 1 + vChoose(vBound(2, 3))
 	g := make(MultiLineString, n)
 	for i := range g {
@@ -153,8 +153,8 @@ func vPerms(n int) [][]int {
 // closed ring, start vertex rotated, every vertex perturbed; vertices have
 // pairwise well separated X so that the anchor is unambiguous
 func VH_C15_accept_ring_rotated() {
-	w, s := vBound(5, 6), 1
-	t := vTol(2, s)
+	w, s := vBound(6, 7), 2
+	t := vTol(3, s)
 	n := 3 + vChoose(vBound(1, 2))
 	r := vGridPath(n, n, w, s)
 	for i := 0; i < n; i++ {
@@ -174,8 +174,8 @@ func VH_C15_accept_ring_rotated() {
 
 // same, without the distinct-X assumption: vertices only separated as points
 func VH_C15_accept_ring_rotated_anyx() {
-	w, s := vBound(5, 5), 1
-	t := vTol(2, s)
+	w, s := vBound(6, 6), 2
+	t := vTol(3, s)
 	n := 3 + vChoose(vBound(1, 2))
 	r := vGridPath(n, n, w, s)
 	for i := 0; i < n; i++ {
@@ -195,8 +195,8 @@ func VH_C15_accept_ring_rotated_anyx() {
 // (3) reject: counts differ, a line string is reversed, or one vertex is
 // displaced by more than the tolerance
 func VH_C15_reject() {
-	w, s := vBound(5, 6), 1
-	t := vTol(2, s)
+	w, s := vBound(6, 7), 2
+	t := vTol(3, s)
 	g := LineString(vGridPath(2, 3, w, s))
 	switch vChoose(4) {
 	case 0: // vertex count differs
